@@ -255,11 +255,11 @@ def finish(ctx, level="proof", checker_cmd="", explanation=""):
             unknown.append(v)
     failed = [o for o in ctx.obligations if not o["ok"]]
     # a failed proof/correspondence obligation with no concrete violation attached is itself a violation
-    if failed and not ctx.violations:
+    if failed and not unknown:
         ctx.violation("obligation-failed:" + ",".join(o["name"] for o in failed[:6]),
                       "; ".join("%s: %s" % (o["name"], o["detail"][:300]) for o in failed[:6]),
                       {"failed_obligations": failed}, concrete=False)
-        unknown = [ctx.violations[-1]]
+        unknown = unknown + [ctx.violations[-1]]
     for l in printed: print(l)
     rc = 0
     os.makedirs(os.path.join(VERIF, "evidence", "replays"), exist_ok=True)
